@@ -8,3 +8,4 @@ const verifBoundFile = 6
 const verifBoundIdxLookups = 2
 const verifBoundIdxFile = 72
 const verifBoundTail = 8
+const verifBoundManifestV4 = false
